@@ -20,34 +20,78 @@ theorem op_map (c cr : Codec V) (hu : c.mult = 1) (hL : 0 < c.L) (hur : cr.mult 
     (f : V → Except Err V) (d : Bits) (rs : List V) (bs : List Bits)
     (hf : (items c d).mapM f = .ok rs) (henc : rs.mapM cr.enc = .ok bs) :
     applyOp c cr f d = .ok bs.flatten := by
-  sorry
+  obtain ⟨bl, t, hbl, ht, rfl, hch, htr, hlen, hit⟩ := blocks_view c hu hL d
+  rw [hit] at hf
+  have hfa := build_forall₂ cr hur hwfr f c.dec bl rs bs hf henc
+  unfold applyOp
+  rw [hlen, List.range_eq_range']
+  have h := opLoop_ok c cr hu f bl t hbl bl.length 0 (by omega) bs (by simpa using hfa) [] 0
+  rw [h]
+  simp
 
 /-- … so its items are the mapped items and it has no trailing bits. -/
 theorem op_map_items (c cr : Codec V) (hu : c.mult = 1) (hL : 0 < c.L) (hur : cr.mult = 1) (hLr : 0 < cr.L) (hwfr : cr.WF)
     (f : V → Except Err V) (g : V → V) (d : Bits)
     (hf : ∀ v ∈ items c d, f v = .ok (g v)) (hfit : ∀ v ∈ items c d, fits cr (g v) = true) :
     ∃ r, applyOp c cr f d = .ok r ∧ items cr r = (items c d).map g ∧ trailing cr.w r = [] := by
-  sorry
+  have hmap : (items c d).mapM f = .ok ((items c d).map g) := mapM_except_ok f g _ hf
+  have hall : ((items c d).map g).all (fits cr) = true := by
+    rw [List.all_eq_true]
+    intro x hx
+    obtain ⟨v, hv, rfl⟩ := List.mem_map.mp hx
+    exact hfit v hv
+  obtain ⟨bl, _, hbl, hdec, hm, _⟩ := encs_of_fits cr hur hwfr _ hall
+  refine ⟨bl.flatten, op_map c cr hu hL hur hwfr f d _ bl hmap hm, ?_, ?_⟩
+  · have hv := view_of_blocks cr hur hLr bl [] hbl hLr
+    rw [List.append_nil] at hv
+    rw [hv.1, hdec]
+  · have hv := view_of_blocks cr hur hLr bl [] hbl hLr
+    rw [List.append_nil] at hv
+    exact hv.2.1
 
 /-- "a result that does not fit raises" (also: the operator itself raising on an item, e.g. division by zero). -/
 theorem op_raises (c cr : Codec V) (hu : c.mult = 1) (hL : 0 < c.L) (f : V → Except Err V) (d : Bits)
     (v : V) (hv : v ∈ items c d) (e : Err) (hfail : buildResult cr (f v) = .error e) :
     ∃ e', applyOp c cr f d = .error e' := by
-  sorry
+  obtain ⟨bl, t, hbl, ht, rfl, hch, htr, hlen, hit⟩ := blocks_view c hu hL d
+  rw [hit] at hv
+  obtain ⟨b, hb, rfl⟩ := List.mem_map.mp hv
+  unfold applyOp
+  rw [hlen, List.range_eq_range']
+  have h := opLoop_fails c cr hu f bl t hbl bl.length 0 (by omega) [] 0
+  revert h
+  cases opLoop c cr f (bl.flatten ++ t) (List.range' 0 bl.length) [] 0 with
+  | error e' => intro _; exact ⟨e', rfl⟩
+  | ok r =>
+    obtain ⟨nd', fails'⟩ := r
+    simp only
+    rintro ⟨_, h2⟩
+    have : 0 < fails' := h2 ⟨b, by simpa using hb, e, hfail⟩
+    have hne : fails' ≠ 0 := by omega
+    rw [if_pos hne]
+    exact ⟨_, rfl⟩
 
 /-- "a failing in-place operator leaves the Array unchanged". -/
 theorem op_fail_atomic (c : Codec V) (f : V → Except Err V) (d : Bits) (e : Err)
     (h : (applyOpInplace c f d).res = .error e) : (applyOpInplace c f d).data = d := by
-  sorry
+  revert h
+  unfold applyOpInplace
+  split
+  · intro _; rfl
+  · intro h; cases h
 
 /-- A succeeding in-place operator stores exactly what the non-in-place one returns. -/
 theorem op_inplace_eq (c : Codec V) (f : V → Except Err V) (d nd : Bits) (h : applyOp c c f d = .ok nd) :
     applyOpInplace c f d = ⟨nd, .ok ()⟩ := by
-  sorry
+  unfold applyOpInplace
+  rw [h]
 
 theorem op_inplace_fails_iff (c : Codec V) (f : V → Except Err V) (d : Bits) :
     (∃ e, (applyOpInplace c f d).res = .error e) ↔ ∃ e, applyOp c c f d = .error e := by
-  sorry
+  unfold applyOpInplace
+  cases h : applyOp c c f d with
+  | error e => simp
+  | ok nd => simp
 
 /-! ### scalar - Array -/
 
@@ -60,7 +104,45 @@ theorem rsub_map_partial (c : Codec V) (hu : c.mult = 1) (hL : 0 < c.L) (hwf : c
     (hcomp : ∀ v ∈ items c d, ∀ n, fneg v = .ok n → fadd n = .ok (g v))
     (hfit : ∀ v ∈ items c d, fits c (g v) = true) :
     ∃ r, rsub c fneg fadd d = .ok r ∧ items c r = (items c d).map g ∧ trailing c.w r = [] := by
-  sorry
+  let g1 : V → V := fun v => match fneg v with | .ok n => n | .error _ => v
+  let g2 : V → V := fun v => match fadd v with | .ok n => n | .error _ => v
+  -- every negation succeeds and fits
+  have hneg : ∀ v ∈ items c d, fneg v = .ok (g1 v) ∧ fits c (g1 v) = true := by
+    intro v hv
+    unfold rsub_negation at hreg
+    rw [List.any_eq_false] at hreg
+    have := hreg v hv
+    cases hn : fneg v with
+    | error e => simp [buildResult, hn] at this
+    | ok n =>
+      have hg : g1 v = n := by simp only [g1, hn]
+      rw [hg]
+      refine ⟨rfl, ?_⟩
+      simp only [buildResult, hn] at this
+      cases hce : createElement c n with
+      | error e => simp [hce] at this
+      | ok b => exact (fits_iff c n).mpr ⟨b, (createElement_ok_inv c n b hce).1⟩
+  obtain ⟨r1, hr1, hi1, ht1⟩ := op_map_items c c hu hL hu hL hwf fneg g1 d
+    (fun v hv => (hneg v hv).1) (fun v hv => (hneg v hv).2)
+  have hadd : ∀ v' ∈ items c r1, fadd v' = .ok (g2 v') ∧ fits c (g2 v') = true := by
+    intro v' hv'
+    rw [hi1] at hv'
+    obtain ⟨v, hv, rfl⟩ := List.mem_map.mp hv'
+    have h := hcomp v hv (g1 v) (hneg v hv).1
+    have hg : g2 (g1 v) = g v := by simp only [g2, h]
+    rw [hg]
+    exact ⟨h, hfit v hv⟩
+  obtain ⟨r2, hr2, hi2, ht2⟩ := op_map_items c c hu hL hu hL hwf fadd g2 r1
+    (fun v hv => (hadd v hv).1) (fun v hv => (hadd v hv).2)
+  refine ⟨r2, ?_, ?_, ht2⟩
+  · unfold rsub
+    rw [hr1]
+    exact hr2
+  · rw [hi2, hi1, List.map_map]
+    apply List.map_congr_left
+    intro v hv
+    have h := hcomp v hv (g1 v) (hneg v hv).1
+    simp only [Function.comp, g2, h]
 
 /-- Known finding `rsub-negation`: `5 - Array('uint3', [1])` raises although `5 - 1 = 4` fits. -/
 theorem rsub_negation_witness :
@@ -78,18 +160,38 @@ theorem bitwise_inplace_map (c : Codec V) (hu : c.mult = 1) (hL : 0 < c.L) (op :
     (bitwiseInplace c op d v).res = .ok () ∧
     chunks c.w (bitwiseInplace c op d v).data = (chunks c.w d).map (fun b => List.zipWith op b v) ∧
     trailing c.w (bitwiseInplace c op d v).data = trailing c.w d := by
-  sorry
+  obtain ⟨bs, t, hbs, ht, rfl, hch, htr, hlen, hit⟩ := blocks_view c hu hL d
+  rw [bitwiseInplace_blocks c hu hL op v hv bs t hbs ht, hch, htr]
+  have hv' := view_of_blocks c hu hL _ t (map_blocks_length c.L op v hv bs hbs) ht
+  exact ⟨rfl, hv'.2.2.1, hv'.2.1⟩
 
 theorem bitwise_wrong_length (c : Codec V) (op : Bool → Bool → Bool) (d v : Bits) (hv : v.length ≠ c.L) :
     (bitwiseInplace c op d v).res = .error .value ∧ (bitwiseInplace c op d v).data = d ∧
     ∃ e, bitwise c op d v = .error e := by
-  sorry
+  have h1 : bitwiseInplace c op d v = ⟨d, .error .value⟩ := by
+    unfold bitwiseInplace; rw [if_pos hv]
+  refine ⟨by rw [h1], by rw [h1], ?_⟩
+  unfold bitwise
+  cases hg : getSlice c d none none none with
+  | error e => exact ⟨e, rfl⟩
+  | ok cp =>
+    simp only
+    have h2 : bitwiseInplace c op cp v = ⟨cp, .error .value⟩ := by
+      unfold bitwiseInplace; rw [if_pos hv]
+    rw [h2]
+    exact ⟨_, rfl⟩
 
 /-- Not in place: a new Array (copy of the items, no trailing bits) with every item combined. -/
 theorem bitwise_map (c : Codec V) (hu : c.mult = 1) (hL : 0 < c.L) (op : Bool → Bool → Bool) (d v : Bits)
     (hv : v.length = c.L) :
     bitwise c op d v = .ok ((chunks c.w d).map fun b => List.zipWith op b v).flatten := by
-  sorry
+  obtain ⟨bs, t, hbs, ht, rfl, hch, htr, hlen, hit⟩ := blocks_view c hu hL d
+  unfold bitwise
+  rw [getSlice_all_blocks c hu hL bs t hbs ht, hch]
+  simp only
+  have h := bitwiseInplace_blocks c hu hL op v hv bs [] hbs hL
+  rw [List.append_nil, List.append_nil] at h
+  rw [h]
 
 /-! ### Array ⊕ Array -/
 
@@ -98,19 +200,46 @@ theorem between_map (c1 c2 cr : Codec V) (hu1 : c1.mult = 1) (hL1 : 0 < c1.L) (h
     (hlen : (items c1 d1).length = (items c2 d2).length)
     (hf : ((items c1 d1).zip (items c2 d2)).mapM (fun p => f p.1 p.2) = .ok rs) (henc : rs.mapM cr.enc = .ok bs) :
     betweenArrays c1 c2 cr f d1 d2 = .ok bs.flatten := by
-  sorry
+  obtain ⟨bs1, t1, hbs1, ht1, rfl, _, _, hlen1, hit1⟩ := blocks_view c1 hu1 hL1 d1
+  obtain ⟨bs2, t2, hbs2, ht2, rfl, _, _, hlen2, hit2⟩ := blocks_view c2 hu2 hL2 d2
+  rw [hit1, hit2] at hf hlen
+  simp only [List.length_map] at hlen
+  have hz : (bs1.map c1.dec).zip (bs2.map c2.dec) = (bs1.zip bs2).map (fun p => (c1.dec p.1, c2.dec p.2)) := by
+    rw [List.zip_map]; rfl
+  rw [hz] at hf
+  have hfa := build_forall₂ cr hur hwfr (fun (q : V × V) => f q.1 q.2) (fun (p : Bits × Bits) => (c1.dec p.1, c2.dec p.2))
+    (bs1.zip bs2) rs bs hf henc
+  unfold betweenArrays
+  rw [hlen1, hlen2, if_neg (not_not.mpr hlen), List.range_eq_range']
+  have h := opLoop2_ok c1 c2 cr hu1 hu2 f bs1 t1 hbs1 bs2 t2 hbs2 bs1.length 0 (by omega) (by omega) bs
+    (by rw [List.drop_zero, List.drop_zero, List.take_length, hlen, List.take_length]; exact hfa) [] 0
+  rw [h]
+  simp
 
 theorem between_length_mismatch (c1 c2 cr : Codec V) (hu1 : c1.mult = 1) (hu2 : c2.mult = 1)
     (f : V → V → Except Err V) (d1 d2 : Bits) (hlen : (items c1 d1).length ≠ (items c2 d2).length) :
     betweenArrays c1 c2 cr f d1 d2 = .error .value := by
-  sorry
+  unfold betweenArrays
+  have : len c1 d1 ≠ len c2 d2 := by
+    rw [len_eq' c1 hu1, len_eq' c2 hu2]; exact hlen
+  rw [if_pos this]
 
 /-- `==` / `!=` between Arrays is the element-wise comparison into `bool` — for operands of the same dtype
     (outside the region `eq_ne_arrays_mixed_dtype`). -/
 theorem eqNe_arrays_partial (c cb c2 : Codec V) (f : V → V → Except Err V) (d d2 : Bits)
     (hreg : eq_ne_arrays_mixed_dtype c c2 = false) :
     eqNeArrays c cb f d c2 d2 = betweenArrays c c cb f d d2 := by
-  sorry
+  unfold eq_ne_arrays_mixed_dtype at hreg
+  have hn : c.name = c2.name ∧ c.L = c2.L := by
+    simp only [Bool.or_eq_false_iff, bne_eq_false_iff_eq] at hreg
+    exact hreg
+  unfold eqNeArrays extendArr
+  have h0 : ¬ (([] : Bits).length % c.L ≠ 0) := by simp
+  have h1 : ¬ (c.name ≠ c2.name ∨ c.L ≠ c2.L) := by
+    intro h; rcases h with h | h
+    · exact h hn.1
+    · exact h hn.2
+  simp only [h0, h1, if_false, List.nil_append]
 
 /-- Known finding `eq-ne-mixed-dtype`: `Array('int3', [1]) == Array('uint3', [1])` raises TypeError (doc/array.rst shows
     `a == b` for `'u8'` and `'i8'` Arrays giving an Array of bools), while `<` between the same operands works. -/
@@ -130,41 +259,125 @@ def SameNameSameKind (t1 t2 : DT) : Prop := t1.name = t2.name → t1.rt = t2.rt 
 
 /-- The branch structure of `_promotetype` computes the documented rules applied in order. -/
 theorem promote_eq_spec (t1 t2 : DT) (h : SameNameSameKind t1 t2) : promote t1 t2 = promoteSpec t1 t2 := by
-  sorry
+  obtain ⟨n1, l1, r1, s1⟩ := t1
+  obtain ⟨n2, l2, r2, s2⟩ := t2
+  unfold SameNameSameKind at h
+  simp only at h
+  unfold promote promoteSpec DT.isFloat DT.isInt
+  by_cases hn : n1 = n2
+  · obtain ⟨hr, hs⟩ := h hn
+    subst hn hr hs
+    rcases Nat.lt_trichotomy l1 l2 with hl | hl | hl
+    · have h1 : ¬ l1 > l2 := by omega
+      cases r1 <;> cases s1 <;> simp (config := {decide := true}) [h1, hl]
+    · subst hl
+      cases r1 <;> cases s1 <;> simp (config := {decide := true})
+    · have h1 : ¬ l2 > l1 := by omega
+      cases r1 <;> cases s1 <;> simp (config := {decide := true}) [h1, hl]
+  · cases r1 <;> cases r2 <;> cases s1 <;> cases s2 <;> simp (config := {decide := true}) [hn] <;> (try (split <;> rfl))
 
 /-- Rule "one of the two types gets returned. We never create a new one." -/
 theorem promote_returns_operand (t1 t2 t : DT) (h : promote t1 t2 = .ok t) : t = t1 ∨ t = t2 := by
-  sorry
+  unfold promote at h
+  repeat' split at h
+  all_goals (cases h <;> first | exact Or.inl rfl | exact Or.inr rfl)
 
 /-- Rule "we only deal with types representing floats or integers". -/
 theorem promote_error_iff (t1 t2 : DT) :
     (∃ e, promote t1 t2 = .error e) ↔ ¬ ((t1.isFloat ∨ t1.isInt) ∧ (t2.isFloat ∨ t2.isInt)) := by
-  sorry
+  obtain ⟨n1, l1, r1, s1⟩ := t1
+  obtain ⟨n2, l2, r2, s2⟩ := t2
+  unfold promote DT.isFloat DT.isInt
+  by_cases hn : n1 = n2 <;>
+  cases r1 <;> cases r2 <;> cases s1 <;> cases s2 <;> simp (config := {decide := true}) [hn]
 
 /-- Rule 1: floats beat integers, whatever the widths and the order. -/
-theorem promote_float_beats_int (t1 t2 : DT) (h1 : t1.isFloat = true) (h2 : t2.isInt = true) :
+theorem promote_float_beats_int (t1 t2 : DT) (h : SameNameSameKind t1 t2) (h1 : t1.isFloat = true) (h2 : t2.isInt = true) :
     promote t1 t2 = .ok t1 ∧ promote t2 t1 = .ok t1 := by
-  sorry
+  obtain ⟨n1, l1, r1, s1⟩ := t1
+  obtain ⟨n2, l2, r2, s2⟩ := t2
+  unfold SameNameSameKind at h
+  unfold DT.isFloat at h1
+  unfold DT.isInt at h2
+  simp only at h h1 h2
+  have hn : n1 ≠ n2 := by
+    intro hn
+    obtain ⟨hr, _⟩ := h hn
+    subst hr
+    cases r1 <;> simp (config := {decide := true}) at h1 h2
+  have hn' : n2 ≠ n1 := fun e => hn e.symm
+  unfold promote DT.isFloat DT.isInt
+  cases r1 <;> cases r2 <;> simp (config := {decide := true}) at h1 h2 <;>
+    cases s1 <;> cases s2 <;> simp (config := {decide := true}) [hn, hn']
 
 /-- Rule 2: signed integers beat unsigned integers, whatever the widths and the order. -/
 theorem promote_signed_beats_unsigned (t1 t2 : DT) (h1 : t1.isInt = true) (h2 : t2.isInt = true)
-    (hs1 : t1.signed = true) (hs2 : t2.signed = false) :
+    (hs1 : t1.signed = true) (hs2 : t2.signed = false) (h : SameNameSameKind t1 t2) :
     promote t1 t2 = .ok t1 ∧ promote t2 t1 = .ok t1 := by
-  sorry
+  obtain ⟨n1, l1, r1, s1⟩ := t1
+  obtain ⟨n2, l2, r2, s2⟩ := t2
+  unfold SameNameSameKind at h
+  unfold DT.isInt at h1 h2
+  simp only at h h1 h2 hs1 hs2
+  subst hs1 hs2
+  have hn : n1 ≠ n2 := by
+    intro hn
+    obtain ⟨_, hs⟩ := h hn
+    cases hs
+  have hn' : n2 ≠ n1 := fun e => hn e.symm
+  unfold promote DT.isFloat DT.isInt
+  cases r1 <;> cases r2 <;> simp (config := {decide := true}) at h1 h2 <;>
+    simp (config := {decide := true}) [hn, hn']
 
 /-- Rule 3: otherwise (both floats, or integers of the same signedness) the longer wins, in either order. -/
 theorem promote_longer_wins (t1 t2 : DT) (h : SameNameSameKind t1 t2)
     (hk : (t1.isFloat = true ∧ t2.isFloat = true) ∨ (t1.isInt = true ∧ t2.isInt = true ∧ t1.signed = t2.signed))
     (hl : t1.L < t2.L) :
     promote t1 t2 = .ok t2 ∧ promote t2 t1 = .ok t2 := by
-  sorry
+  obtain ⟨n1, l1, r1, s1⟩ := t1
+  obtain ⟨n2, l2, r2, s2⟩ := t2
+  unfold DT.isFloat DT.isInt at hk
+  simp only at hk hl
+  have h1 : ¬ l1 > l2 := by omega
+  have h2 : l2 > l1 := by omega
+  have h3 : ¬ l2 < l1 := by omega
+  unfold promote DT.isFloat DT.isInt
+  by_cases hn : n1 = n2
+  · subst hn
+    rcases hk with ⟨ha, hb⟩ | ⟨ha, hb, hc⟩ <;>
+    cases r1 <;> cases r2 <;> (try simp (config := {decide := true}) at ha hb) <;>
+      simp (config := {decide := true}) [h1, h2, h3, hl]
+  · have hn' : ¬ n2 = n1 := fun e => hn e.symm
+    rcases hk with ⟨ha, hb⟩ | ⟨ha, hb, hc⟩
+    · cases r1 <;> cases r2 <;> (try simp (config := {decide := true}) at ha hb) <;>
+        simp (config := {decide := true}) [hn, hn', h1, h2, h3, hl]
+    · subst hc
+      cases r1 <;> cases r2 <;> (try simp (config := {decide := true}) at ha hb) <;>
+        cases s1 <;> simp (config := {decide := true}) [hn, hn', h1, h2, h3, hl]
 
 /-- Rule 4: in a tie the first type wins. -/
 theorem promote_tie_first (t1 t2 : DT) (h : SameNameSameKind t1 t2)
     (hk : (t1.isFloat = true ∧ t2.isFloat = true) ∨ (t1.isInt = true ∧ t2.isInt = true ∧ t1.signed = t2.signed))
     (hl : t1.L = t2.L) :
     promote t1 t2 = .ok t1 := by
-  sorry
+  obtain ⟨n1, l1, r1, s1⟩ := t1
+  obtain ⟨n2, l2, r2, s2⟩ := t2
+  unfold SameNameSameKind at h
+  unfold DT.isFloat DT.isInt at hk
+  simp only at h hk hl
+  subst hl
+  unfold promote DT.isFloat DT.isInt
+  by_cases hn : n1 = n2
+  · obtain ⟨hr, hs⟩ := h hn
+    subst hn hr hs
+    rcases hk with ⟨ha, hb⟩ | ⟨ha, hb, hc⟩ <;>
+    cases r1 <;> (try simp (config := {decide := true}) at ha hb) <;> simp (config := {decide := true})
+  · rcases hk with ⟨ha, hb⟩ | ⟨ha, hb, hc⟩
+    · cases r1 <;> cases r2 <;> (try simp (config := {decide := true}) at ha hb) <;>
+        simp (config := {decide := true}) [hn]
+    · subst hc
+      cases r1 <;> cases r2 <;> (try simp (config := {decide := true}) at ha hb) <;>
+        cases s1 <;> simp (config := {decide := true}) [hn]
 
 /-! ### non-vacuity -/
 example : applyOp (mkCodec .u "uint" 3 1 .int false) (mkCodec .u "uint" 3 1 .int false) (scalarFn "add" (.int 2) false)
